@@ -41,57 +41,12 @@ func runG1(p *an.Prog, r *an.Result) {
 		return
 	}
 	name := an.FuncName(fn)
-	// the stack cell: a captured []frame
-	var stack *ssa.Alloc
-	an.EachInstr(fn, func(in ssa.Instruction) {
-		if al, ok := in.(*ssa.Alloc); ok && al.Heap {
-			if sl, ok := al.Type().Underlying().(*types.Pointer).Elem().Underlying().(*types.Slice); ok {
-				if st, ok := sl.Elem().Underlying().(*types.Struct); ok && st.NumFields() >= 2 {
-					stack = al
-				}
-			}
-		}
-	})
-	if stack == nil {
-		r.Bad(name, "frame stack not found", an.FuncPos(fn), "no captured slice of frames")
+	sh := findStackShape(fn)
+	if sh.problem != "" {
+		r.Bad(name, "frame stack not found", an.FuncPos(fn), sh.problem)
 		return
 	}
-	// closures that grow / shrink the stack
-	var pushFn, popFn *ssa.Function
-	for _, cl := range fn.AnonFuncs {
-		an.EachInstr(cl, func(in ssa.Instruction) {
-			switch x := in.(type) {
-			case *ssa.Call:
-				if b, ok := x.Call.Value.(*ssa.Builtin); ok && b.Name() == "append" {
-					if _, ok := x.Call.Args[0].Type().Underlying().(*types.Slice); ok && types.Identical(x.Call.Args[0].Type(), stack.Type().Underlying().(*types.Pointer).Elem()) {
-						pushFn = cl
-					}
-				}
-			case *ssa.Slice:
-				if types.Identical(x.X.Type(), stack.Type().Underlying().(*types.Pointer).Elem()) && x.High != nil {
-					popFn = cl
-				}
-			}
-		})
-	}
-	// in-line push/pop (no closures) would be stores to the stack cell in fn itself
-	sitesOf := func(cl *ssa.Function) []ssa.Instruction {
-		var out []ssa.Instruction
-		if cl == nil {
-			return nil
-		}
-		an.EachInstr(fn, func(in ssa.Instruction) {
-			if c, ok := in.(*ssa.Call); ok && c.Call.StaticCallee() == cl {
-				out = append(out, c)
-			}
-		})
-		return out
-	}
-	pushSites, popSites := sitesOf(pushFn), sitesOf(popFn)
-	if pushFn == nil || popFn == nil || len(pushSites) == 0 || len(popSites) == 0 {
-		r.Bad(name, "push/pop not resolved", an.FuncPos(fn), fmt.Sprintf("push closure: %v (%d calls), pop closure: %v (%d calls)", pushFn != nil, len(pushSites), popFn != nil, len(popSites)))
-		return
-	}
+	pushSites, popSites := sh.pushSites, sh.popSites
 	// clause attach: stores into a .Clauses field
 	var clauseSites []ssa.Instruction
 	an.EachInstr(fn, func(in ssa.Instruction) {
@@ -224,108 +179,55 @@ func runG1(p *an.Prog, r *an.Result) {
 		r.Bad(name, "no CanHaveParent test", an.FuncPos(fn), "the parser never checks that a clause or end tag names the innermost open block")
 	}
 	// push saves what pop restores, field for field
-	frameT := stack.Type().Underlying().(*types.Pointer).Elem().Underlying().(*types.Slice).Elem()
-	saved := map[int]ssa.Value{} // frame field -> cell
-	an.EachInstr(pushFn, func(in ssa.Instruction) {
-		st, ok := in.(*ssa.Store)
-		if !ok {
-			return
-		}
-		fa, ok := st.Addr.(*ssa.FieldAddr)
-		if !ok || !types.Identical(fa.X.Type().Underlying().(*types.Pointer).Elem(), frameT) {
-			return
-		}
-		if u, ok := st.Val.(*ssa.UnOp); ok {
-			if fv, ok := u.X.(*ssa.FreeVar); ok {
-				saved[fa.Field] = cellOfFreeVar(fn, pushFn, fv)
-			}
-		}
-	})
-	restored := map[int]ssa.Value{}
-	an.EachInstr(popFn, func(in ssa.Instruction) {
-		st, ok := in.(*ssa.Store)
-		if !ok {
-			return
-		}
-		fv, ok := st.Addr.(*ssa.FreeVar)
-		if !ok {
-			return
-		}
-		switch v := st.Val.(type) {
-		case *ssa.Field:
-			restored[v.Field] = cellOfFreeVar(fn, popFn, fv)
-		case *ssa.UnOp:
-			if fa, ok := v.X.(*ssa.FieldAddr); ok {
-				restored[fa.Field] = cellOfFreeVar(fn, popFn, fv)
-			}
-		}
-	})
 	var fields []int
-	for k := range saved {
+	for k := range sh.saved {
 		fields = append(fields, k)
 	}
 	sort.Ints(fields)
 	if len(fields) < 2 {
-		r.Bad(name, "push saves fewer than two variables", an.FuncPos(pushFn), "the frame must save the current syntax, node and append position")
+		r.Bad(name, "push saves fewer than two variables", sh.pushPos, "the frame must save the current syntax, node and append position")
+	}
+	restoredTo := func(k int, v ssa.Value) bool {
+		for _, x := range sh.restored[k] {
+			if x == v {
+				return true
+			}
+		}
+		return false
 	}
 	for _, k := range fields {
-		if restored[k] != nil && restored[k] == saved[k] {
-			r.OK(name, fmt.Sprintf("frame field %d saved from and restored to the same variable", k), an.FuncPos(popFn), "push/pop pairing")
+		if restoredTo(k, sh.saved[k]) {
+			r.OK(name, fmt.Sprintf("frame field %d saved from and restored to the same variable", k), sh.popPos, "push/pop pairing")
 		} else {
-			r.Bad(name, fmt.Sprintf("frame field %d is not restored to the variable it was saved from", k), an.FuncPos(popFn), "after an end tag the parser must continue exactly where the enclosing block left off")
+			r.Bad(name, fmt.Sprintf("frame field %d is not restored to the variable it was saved from", k), sh.popPos, "after an end tag the parser must continue exactly where the enclosing block left off")
 		}
 	}
 	// every parser variable that a block start assigns (in push or right after it) is restored by pop
 	// from a frame field that push saved from that same variable
-	assigned := map[ssa.Value]bool{}
-	an.EachInstr(pushFn, func(in ssa.Instruction) {
-		if st, ok := in.(*ssa.Store); ok {
-			if fv, ok := st.Addr.(*ssa.FreeVar); ok {
-				if c := cellOfFreeVar(fn, pushFn, fv); c != nil && c != ssa.Value(stack) {
-					assigned[c] = true
-				}
-			}
-		}
-	})
-	for _, ps := range pushSites {
-		for _, in := range ps.Block().Instrs {
-			if st, ok := in.(*ssa.Store); ok {
-				if al, ok := st.Addr.(*ssa.Alloc); ok && al.Heap && al != stack {
-					assigned[al] = true
-				}
-			}
-		}
+	var avars []ssa.Value
+	for v := range sh.assigned {
+		avars = append(avars, v)
 	}
-	for cell := range assigned {
-		nm := cell.Name()
-		if al, ok := cell.(*ssa.Alloc); ok && al.Comment != "" {
-			nm = al.Comment
-		}
+	sort.Slice(avars, func(i, j int) bool { return varName(avars[i]) < varName(avars[j]) })
+	for _, v := range avars {
+		nm := varName(v)
 		okR := false
-		for k, c := range restored {
-			if c == cell && saved[k] == cell {
+		for _, k := range fields {
+			if sh.saved[k] == v && restoredTo(k, v) {
 				okR = true
 			}
 		}
 		if okR {
-			r.OK(name, "variable "+nm+" assigned at block start is restored from the frame", an.FuncPos(popFn), "")
+			r.OK(name, "variable "+nm+" assigned at block start is restored from the frame", sh.popPos, "")
 		} else {
-			r.Bad(name, "variable "+nm+" assigned at block start is not restored from the frame", an.FuncPos(popFn), fmt.Sprintf("a block start changes %s but the end tag does not put back the value saved when the block opened: content after a nested block is attached in the wrong place", nm))
+			r.Bad(name, "variable "+nm+" assigned at block start is not restored from the frame", sh.popPos, fmt.Sprintf("a block start changes %s but the end tag does not put back the value saved when the block opened: content after a nested block is attached in the wrong place", nm))
 		}
 	}
 	// the popped frame is the top of the stack
-	okTop := false
-	an.EachInstr(popFn, func(in ssa.Instruction) {
-		if ia, ok := in.(*ssa.IndexAddr); ok {
-			if linOf(ia.Index, 0).c == -1 {
-				okTop = true
-			}
-		}
-	})
-	if okTop {
-		r.OK(name, "pop reads stack[len-1]", an.FuncPos(popFn), "")
+	if sh.top {
+		r.OK(name, "pop reads stack[len-1]", sh.popPos, "")
 	} else {
-		r.Bad(name, "pop does not read the top of the stack", an.FuncPos(popFn), "the frame restored must be the innermost one")
+		r.Bad(name, "pop does not read the top of the stack", sh.popPos, "the frame restored must be the innermost one")
 	}
 	// CanHaveParent itself
 	chp := p.Func("(*render.blockSyntax).CanHaveParent")
@@ -425,24 +327,15 @@ func runG2(p *an.Prog, r *an.Result) {
 			flags = append(flags, ph)
 		}
 	})
-	// the pointer to the current block: the cell into which push stores the new block
+	// the pointer to the current block: the variable that a block start sets to a fresh node
 	var openCells []ssa.Value
-	for _, cl := range fn.AnonFuncs {
-		an.EachInstr(cl, func(in ssa.Instruction) {
-			st, ok := in.(*ssa.Store)
-			if !ok {
-				return
+	if sh := findStackShape(fn); sh.problem == "" {
+		for v, val := range sh.assigned {
+			if isFreshAlloc(val) {
+				openCells = append(openCells, v)
 			}
-			fv, ok := st.Addr.(*ssa.FreeVar)
-			if !ok {
-				return
-			}
-			if al, ok := st.Val.(*ssa.Alloc); ok && al.Heap && strings.Contains(al.Comment, "complit") {
-				if c := cellOfFreeVar(fn, cl, fv); c != nil {
-					openCells = append(openCells, c)
-				}
-			}
-		})
+		}
+		sort.Slice(openCells, func(i, j int) bool { return varName(openCells[i]) < varName(openCells[j]) })
 	}
 	r.Counts["open-state variables"] = len(flags) + len(openCells)
 	for _, ret := range success {
@@ -461,14 +354,10 @@ func runG2(p *an.Prog, r *an.Result) {
 			}
 		}
 		for _, cell := range openCells {
-			nm := cell.Name()
-			if al, ok := cell.(*ssa.Alloc); ok && al.Comment != "" {
-				nm = al.Comment
-			}
+			nm := varName(cell)
 			okT := an.AllPathsGuarded(ret.Block(), func(cond ssa.Value, taken bool) bool {
 				return condMentions(cond, func(v ssa.Value) bool {
-					u, ok := v.(*ssa.UnOp)
-					return ok && u.X == cell
+					return isReadOf(cell, v)
 				}, 0)
 			})
 			if okT {
@@ -487,7 +376,7 @@ func runG2(p *an.Prog, r *an.Result) {
 			return // inside the loop
 		}
 		for _, cell := range openCells {
-			if condMentions(ifi.Cond, func(v ssa.Value) bool { u, ok := v.(*ssa.UnOp); return ok && u.X == cell }, 0) {
+			if condMentions(ifi.Cond, func(v ssa.Value) bool { return isReadOf(cell, v) }, 0) {
 				cellTests = append(cellTests, ifi)
 			}
 		}
@@ -616,35 +505,37 @@ func runG4(p *an.Prog, r *an.Result) {
 	}
 	name := an.FuncName(fn)
 	okBody, okClauses, okToken := false, false, false
-	an.EachInstr(fn, func(in ssa.Instruction) {
-		st, ok := in.(*ssa.Store)
-		if !ok {
-			return
-		}
-		fa, ok := st.Addr.(*ssa.FieldAddr)
-		if !ok || !isNamedIn(fa.X.Type().Underlying().(*types.Pointer).Elem(), "render", "BlockNode") {
-			return
-		}
-		field := describe(p, fa)
-		fromCall := func(callee, argSuffix string) bool {
-			for _, o := range an.Origins(st.Val, an.StepValue) {
-				if ex, ok := o.(*ssa.Extract); ok && ex.Index == 0 {
-					if c, ok := ex.Tuple.(*ssa.Call); ok && an.CallName(&c.Call) == callee {
-						return strings.HasSuffix(describe(p, c.Call.Args[len(c.Call.Args)-1]), argSuffix)
+	for _, uf := range unitWithHelpers(p, fn) {
+		an.EachInstr(uf, func(in ssa.Instruction) {
+			st, ok := in.(*ssa.Store)
+			if !ok {
+				return
+			}
+			fa, ok := st.Addr.(*ssa.FieldAddr)
+			if !ok || !isNamedIn(fa.X.Type().Underlying().(*types.Pointer).Elem(), "render", "BlockNode") {
+				return
+			}
+			field := describe(p, fa)
+			fromCall := func(callee, argSuffix string) bool {
+				for _, o := range an.Origins(st.Val, an.StepValue) {
+					if ex, ok := o.(*ssa.Extract); ok && ex.Index == 0 {
+						if c, ok := ex.Tuple.(*ssa.Call); ok && an.CallName(&c.Call) == callee {
+							return strings.HasSuffix(describe(p, c.Call.Args[len(c.Call.Args)-1]), argSuffix)
+						}
 					}
 				}
+				return false
 			}
-			return false
-		}
-		switch {
-		case strings.HasSuffix(field, ".Body"):
-			okBody = fromCall("(render.Config).compileNodes", ".Body")
-		case strings.HasSuffix(field, ".Clauses"):
-			okClauses = fromCall("(render.Config).compileBlocks", ".Clauses")
-		case strings.HasSuffix(field, ".Token"):
-			okToken = strings.HasSuffix(describe(p, st.Val), ".Token")
-		}
-	})
+			switch {
+			case strings.HasSuffix(field, ".Body"):
+				okBody = fromCall("(render.Config).compileNodes", ".Body")
+			case strings.HasSuffix(field, ".Clauses"):
+				okClauses = fromCall("(render.Config).compileBlocks", ".Clauses")
+			case strings.HasSuffix(field, ".Token"):
+				okToken = strings.HasSuffix(describe(p, st.Val), ".Token")
+			}
+		})
+	}
 	for _, c := range []struct {
 		ok   bool
 		what string
